@@ -646,7 +646,10 @@ class _GenState:
             name = rng.choice(PRESET_NAMES)
             if rng.random() < 0.08:
                 name = None      # set_semantic_constraints() with its default argument
-            yield {"op": "set_preset", "name": name}
+            op = {"op": "set_preset", "name": name}
+            if name is not None and rng.random() < 0.06:
+                op["strsub"] = True      # the name as an instance of a str subclass
+            yield op
             self.table_changed(PRESET_GUESS[name or "default"])
             yield from self.after_change(idx + 1)
         elif kind == "set_table":
@@ -658,7 +661,7 @@ class _GenState:
             op = {"op": "set_table", "lit": lit(K)}
             u = rng.random()
             if u < 0.12:
-                op["wrap"] = rng.choice(("defaultdict", "OrderedDict", "Counter", "missing"))
+                op["wrap"] = rng.choice(("defaultdict", "OrderedDict", "Counter", "missing", "strsub_keys", "intsub_vals"))
             yield op
             self.table_changed(K)
             if 0.12 <= u < 0.17:
@@ -668,6 +671,16 @@ class _GenState:
                 op["x"] = gen_selfies(rng, self.ctx(), "focus")
             yield from self.after_change(idx + 1)
         elif kind == "set_bad":
+            if rng.random() < 0.1:
+                # a sound table in something that is no dict (Mapping view, UserDict, pairs): the
+                # documented argument is a str or a dict; rejected on the current tree
+                K = gen_table(rng, rng.choice(("tweak", "small")), self.cur)
+                self.handles.append((idx, "dict"))
+                yield {"op": "set_table", "lit": lit(K), "why": "nondict",
+                       "wrap": rng.choice(("mappingproxy", "userdict", "pairs_iter", "pairs_list"))}
+                if rng.random() < 0.6:
+                    yield from self.query(idx + 1, prefer="focus")
+                return
             if getattr(self, "bad_sent", None) and rng.random() < 0.25:
                 bk, l = rng.choice(self.bad_sent)      # the caller retries a rejected update verbatim
             else:
